@@ -17,8 +17,10 @@ impl Typstyle {
         source: &Source,
         utf8_range: Range<usize>,
     ) -> Result<(Range<usize>, String), Error> {
-        // Trim the give range to ensure no space aside.
-        let range = utils::trim_range(source.text(), utf8_range);
+        // Clamp the given range to the text, then trim it to ensure no space aside.
+        let end = utf8_range.end.min(source.len_bytes());
+        let start = utf8_range.start.min(end);
+        let range = utils::trim_range(source.text(), start..end);
 
         let Some((node, mode)) =
             get_node_cover_range(source, range.clone()).filter(|(node, _)| !node.erroneous())
